@@ -71,6 +71,12 @@ def _source(case):
             f"    pub r_mapv: HashMap<String, {t}>,\n    pub r_mapk: HashMap<{t}, String>,\n    pub r_array: [{t}; 2],\n"
             f"    pub r_garg: Gen<{t}>,\n    pub r_nested: Vec<Option<HashMap<String, Gen<{t}>>>>,\n    pub r_param: Vec<P>,\n    pub r_second: Second,\n"
             + ("    pub r_tsec: Target<Second>,\n    pub r_tsecv: Vec<Target<Vec<Second>>>,\n" if case["kind"] == "generic_struct" else "") + "}\n")
+    # generic parameters NAMED LIKE typeshared types of the run (valid Rust: the parameter shadows the type inside the item). They are
+    # parameters - never prefixed, never renamed - and the items that follow still refer to the real types by their definition names
+    src += "#[typeshare]\npub struct ShadowS<Second> {\n    pub sh_param: Vec<Second>,\n    pub sh_keep: u32,\n}\n"
+    if case["kind"] not in ("recursive_struct", "recursive_enum"):
+        src += "#[typeshare]\npub struct ShadowT<Target> {\n    pub sh_param: Option<Target>,\n    pub sh_keep: u32,\n}\n"
+    src += f"#[typeshare]\npub struct ZAfterShadows {{\n    pub z_second: Second,\n    pub z_target: Vec<{t}>,\n}}\n"
     src += f"#[typeshare]\npub type RAlias = {t};\n"
     src += f"#[typeshare]\npub type RAliasVec = Vec<{t}>;\n"
     src += f'#[typeshare]\n#[serde(tag = "type", content = "content")]\npub enum RHost {{ Pay({t}), PayVec(Vec<{t}>), {case.get("svname", "Sv")} {{ f: {t}, g: Option<{t}> }}, U }}\n'
@@ -137,6 +143,17 @@ def sites(lang, obs, case, prefix):
                     out.append(("second_as_arg_of_target" + m["key"][6:], ls[1], None))
             elif m["key"].startswith("r_"):
                 out.append((m["key"][2:], target_leaf(m["ty"], others), None))
+    for hn, pname in (("ShadowS", "Second"), ("ShadowT", case.get("ident", "Target"))):
+        sh = observe.find_def(obs, pre + hn, hn)
+        for m in (sh or {}).get("members", []):
+            if m["key"] == "sh_param":
+                out.append(("param", (leaves(m["ty"], []) or [None])[0], "shadow:" + pname))
+    za = observe.find_def(obs, pre + "ZAfterShadows", "ZAfterShadows")
+    for m in (za or {}).get("members", []):
+        if m["key"] == "z_second":
+            out.append(("second_after_shadow", (leaves(m["ty"], []) or [None])[0], None))
+        elif m["key"] == "z_target":
+            out.append(("field_after_shadow", target_leaf(m["ty"], others), None))
     for an, site in (("RAlias", "alias"), ("RAliasVec", "alias_vec")):
         a = observe.find_def(obs, pre + an, an)
         if a and a["kind"] == "alias":
@@ -221,8 +238,11 @@ def run_cases(chk, cases):
                         ev["target"] = {"ident": "RHost", "rename": ""}
                     if tk and tk.startswith("T-in-"):
                         ev["param"] = "T"
+                    if tk and tk.startswith("shadow:"):
+                        ev["param"] = tk[7:]
                     events.append(ev)
-                    meta.append((lang, c["case"], site if not (tk and tk.startswith("T-in-")) else "param_in_variant_" + tk[5:], srcs[i]))
+                    meta.append((lang, c["case"], "param_named_like_a_type" if tk and tk.startswith("shadow:") else
+                                 site if not (tk and tk.startswith("T-in-")) else "param_in_variant_" + tk[5:], srcs[i]))
     return events, meta
 
 
